@@ -1196,6 +1196,10 @@ func editOps() []editOp {
 	for _, k := range valid {
 		ops = append(ops, editOp{true, k, "1"}, editOp{true, k, "x y"})
 	}
+	// a member longer than 128 characters (the W3C text lets a vendor drop such entries FIRST when it
+	// has to shorten a header; the list-level rule of the statement is unconditional: an overflow
+	// drops the right-most member, whatever its size)
+	ops = append(ops, editOp{true, "k15", strings.Repeat("v", 150)}, editOp{true, "n1", strings.Repeat("w", 150)})
 	for _, k := range []string{"", "A", "aš"} { // empty, upper case, a + U+0161 (bytes c5 a1)
 		ops = append(ops, editOp{true, k, "1"})
 	}
